@@ -2,8 +2,12 @@
 
 Oracle: rt/c04_sphere.py (independent 3-vector model of the documented TOAST layout).
 * containment: the documented spherical quadrilateral of the *returned position* (n, x, y) must
-  contain the point: signed angular distance to each of its four great-circle edges >= -1e-10 rad
-  ("up to rounding on shared edges"; a wrong tile is off by a sizeable fraction of a tile);
+  contain the point: signed angular distance to each of its four great-circle edges
+  >= -(1e-10 + 8 eps / shortest_edge) rad.  This is "up to rounding on shared edges": toasty
+  locates an edge with dot(cross(a, b), p), and the float64 cross product of two corners that are
+  |b - a| apart fixes the edge only to ~eps / |b - a| (2e-13 rad at depth 12, 2e-8 rad = 1/5 tile
+  at depth 24; observed: points placed exactly on an edge land up to 1.5e-10 rad outside the
+  returned depth-24 tile).  A wrong tile is off by a sizeable fraction of a tile;
 * nesting: position at depth d is the ancestor (x >> 1, y >> 1) of the position at depth d + 1;
 * periodicity: the tile returned for lon + 2 pi k must contain the original point (interiors of
   tiles are disjoint, so away from edges this forces the same tile; on an edge either neighbour
@@ -39,8 +43,8 @@ quick   : per coordinate system 600 random points (uniform on the sphere) + ~470
           edges of level <= 4, |lat| within 1e-9..0.5 deg of the poles); tile look-up at every depth 0..10 (nesting)
           and one depth in 11..20; periodicity with k in {-1000, -3, -1, 1, 2, 1000}; 250 pixel look-ups
           (depth 0..10) + 40 with shifted longitude.
-thorough: 20000 random + ~1300 special points (corners to level 4, edges to level 5), depths 0..16 and one in 17..24;
-          5000 pixel look-ups + 600 shifted.
+thorough: 12000 random + ~1300 special points (corners to level 4, edges to level 5), depths 0..16 and one in 17..24;
+          4000 pixel look-ups + 500 shifted.
 
 Trusted: numpy; the model rt/c04_sphere.py.  toast_tile_get_coords is called only to fill the
 descriptive witness key ``branch_mismatch``; it plays no part in the verdict.
@@ -62,10 +66,14 @@ EPS = 2.220446049250313e-16
 
 
 def _margin(coordsys, n, x, y, p):
+    """(margin, tolerance).  toasty decides the side of an edge with dot(cross(a, b), p) on float64
+    corners; the cross product of two corners |b - a| apart carries ~eps absolute error, i.e. the
+    edge is only located to ~eps / |b - a| radians: that is the "rounding on shared edges" the
+    statement allows (2e-13 rad at depth 12, 2e-8 rad = a fifth of a tile at depth 24)."""
     if n == 0:
-        return math.inf
+        return math.inf, TOL_IN
     q, _inc = S.tile_quad(coordsys, n, x, y)
-    return float(S.quad_inside_margin(q, p))
+    return float(S.quad_inside_margin(q, p)), TOL_IN + 8 * EPS / S.quad_min_edge(q)
 
 
 def _pos_ok(t, depth):
@@ -93,8 +101,8 @@ def check_tile_point(T, coordsys, pt):
         if not _pos_ok(t, depth):
             out.append(("rt/toast_tile_for_point/level", w, "look-up at depth %d returned position %r" % (depth, pos)))
             continue
-        m = _margin(coordsys, pos[0], pos[1], pos[2], p)
-        if not m >= -TOL_IN:
+        m, tol = _margin(coordsys, pos[0], pos[1], pos[2], p)
+        if not m >= -tol:
             out.append(("rt/toast_tile_for_point/contains_point", dict(w, margin=m),
                         "tile %r returned for (lat %.6f, lon %.6f) does not contain the point: it lies %.3g rad outside" % (pos, lat, lon, -m)))
         if prev is not None:
@@ -124,8 +132,8 @@ def check_tile_point(T, coordsys, pt):
             if not _pos_ok(t2, depth):
                 out.append(("rt/toast_tile_for_point/lon_periodic", dict(w, margin=None), "lon + 2 pi * %d gives position %r" % (k, pos2)))
                 continue
-            m = _margin(coordsys, pos2[0], pos2[1], pos2[2], p)
-            if not m >= -(TOL_IN + 8 * EPS * abs(lon2)):
+            m, tol = _margin(coordsys, pos2[0], pos2[1], pos2[2], p)
+            if not m >= -(tol + 8 * EPS * abs(lon2)):
                 out.append(("rt/toast_tile_for_point/lon_periodic", dict(w, margin=m),
                             "lon and lon + 2 pi * %d give tiles %r and %r, and the latter is %.3g rad away from the point" % (k, pos0, pos2, -m)))
     return out
@@ -184,7 +192,8 @@ def check_pixel_point(T, coordsys, pt):
         err = float(errs[b])
         ci, cj = int(cand[b][0]), int(cand[b][1])
     if not err <= TOL_PIX:
-        contained = bool(_margin(coordsys, pos[0], pos[1], pos[2], p) >= -TOL_IN)
+        m, tol = _margin(coordsys, pos[0], pos[1], pos[2], p)
+        contained = bool(m >= -tol)
         mismatch = None
         try:
             if pos[0] >= 1:
@@ -286,7 +295,7 @@ def _special_points(coordsys, rng, corner_level, edge_level):
 def _build(ctx, coordsys):
     rng = ctx.rng
     if ctx.thorough:
-        n_rand, corner_level, edge_level, dmax, dtop, n_pix, n_pix_shift = 20000, 4, 5, 16, 24, 5000, 600
+        n_rand, corner_level, edge_level, dmax, dtop, n_pix, n_pix_shift = 12000, 4, 5, 16, 24, 4000, 500
     else:
         n_rand, corner_level, edge_level, dmax, dtop, n_pix, n_pix_shift = 600, 3, 4, 10, 20, 250, 40
     pts = [(math.asin(rng.uniform(-1, 1)), rng.uniform(0, S.TWOPI), "random") for _ in range(n_rand)]
